@@ -71,9 +71,40 @@ fn check_line(line: &str, rep: &mut Report, args: &Args, case: u64, count_distin
         Ok(got) => {
             if !want.contains(&got) {
                 report(rep, args, "C07", "tokenize", &tok_tag(line, &got, &want), case, line.chars().count(), J::s(line), format!("line {:?} -> {:?}, the statement allows {:?}", line, got, want));
+            } else if let Some((k, rest, items)) = split_mismatch(line, &got) {
+                // the way the library itself consumes tokens: take k of them, hand the rest on (command name / sub-command
+                // name, then the argument list): the rest must be exactly the remaining tokens, classified as C08 says
+                report(rep, args, "C07", "tokenize", "rest-after-taking-tokens", case, line.chars().count(), J::s(line), format!("line {:?} -> {:?}; after taking {} token(s) the remaining tokens are {:?} (as argument items: {:?}), expected {:?}", line, got, k, rest, items, &got[k..]));
             }
         }
     }
+}
+
+/// TokensIter::next x k, then into_tokens(): the remainder must be tokens k.. (checked as tokens and as argument items)
+fn split_mismatch(line: &str, got: &[String]) -> Option<(usize, Vec<String>, Vec<Item>)> {
+    let mut copy = line.to_string();
+    let toks = Tokens::new(copy.as_mut_str());
+    for k in 0..=got.len() {
+        let mut it = toks.iter();
+        for _ in 0..k {
+            it.next();
+        }
+        let rest_tokens = it.into_tokens();
+        let rest: Vec<String> = rest_tokens.iter().map(|t| t.to_string()).collect();
+        let items: Vec<Item> = ArgList::new(rest_tokens)
+            .args()
+            .map(|a| match a {
+                Arg::DoubleDash => Item::DoubleDash,
+                Arg::LongOption(n) => Item::Long(n.to_string()),
+                Arg::ShortOption(c) => Item::Short(c),
+                Arg::Value(v) => Item::Value(v.to_string()),
+            })
+            .collect();
+        if rest != got[k..] || items != ref_classify(&got[k..]) {
+            return Some((k, rest, items));
+        }
+    }
+    None
 }
 
 pub fn run_direct(args: &Args, rep: &mut Report) {
@@ -196,13 +227,27 @@ pub fn run_random(args: &Args, rep: &mut Report) {
                 Err(e) => report(rep, args, "C07", "token-invalid", "utf8-or-length", idx, r.len(), J::s(&r), format!("rendering {:?}: {}", r, e)),
             }
         }
-        // (c) end to end: typed into a Cli, name = first element, the rest after `--`
-        if idx % 4 == 0 && list[0] != "help" {
+        // (c) end to end: typed into a Cli, name = first element; the rest after `--` (all values), or as they are
+        // (then they arrive classified as C08 says)
+        if idx % 2 == 0 && list[0] != "help" {
+            let with_dd = rng.chance(50);
+            let items = ref_classify(&list[1..]);
+            let (is_help, open) = help_shape(&list[0], &items);
+            if !with_dd && (is_help || open) {
+                rep.count("c07.end_to_end.help_shaped_skipped");
+                return;
+            }
             let mut line = quote_token(&list[0]);
-            line.push_str(" --");
+            if with_dd {
+                line.push_str(" --");
+            }
             for t in &list[1..] {
                 line.push(' ');
-                line.push_str(&quote_token(t));
+                if !with_dd && !needs_quoting(t) && rng.chance(50) {
+                    line.push_str(t);
+                } else {
+                    line.push_str(&quote_token(t));
+                }
             }
             let mut cmd = vec![0u8; line.len() + 4].into_boxed_slice();
             let mut hist = vec![0u8; 8].into_boxed_slice();
@@ -214,12 +259,25 @@ pub fn run_random(args: &Args, rep: &mut Report) {
             rig.byte(b'\n').expect("sink never fails");
             rep.evaluations += 1;
             rep.count("c07.end_to_end.lines");
-            let mut want_args = vec![RecArg::DoubleDash];
-            want_args.extend(list[1..].iter().map(|t| RecArg::Value(t.as_bytes().to_vec())));
+            let want_args: Vec<RecArg> = if with_dd {
+                let mut w = vec![RecArg::DoubleDash];
+                w.extend(list[1..].iter().map(|t| RecArg::Value(t.as_bytes().to_vec())));
+                w
+            } else {
+                items
+                    .iter()
+                    .map(|i| match i {
+                        Item::DoubleDash => RecArg::DoubleDash,
+                        Item::Long(n) => RecArg::Long(n.as_bytes().to_vec()),
+                        Item::Short(c) => RecArg::Short(*c as u32),
+                        Item::Value(v) => RecArg::Value(v.as_bytes().to_vec()),
+                    })
+                    .collect()
+            };
             let ok = rig.proc.log.len() == 1 && rig.proc.log[0].name == list[0].as_bytes() && rig.proc.log[0].args == want_args;
             if !ok {
-                let tag = if list[0].is_empty() { "leading-empty-token-lost" } else { "end-to-end" };
-                report(rep, args, "C07", "roundtrip", tag, idx, line.chars().count(), J::s(&line), format!("typed {:?}: handler received {:?}, expected name {:?} and values {:?} after --", line, rig.proc.log, list[0], &list[1..]));
+                let tag = if list[0].is_empty() { "leading-empty-token-lost" } else if with_dd { "end-to-end" } else { "end-to-end-plain" };
+                report(rep, args, "C07", "roundtrip", tag, idx, line.chars().count(), J::s(&line), format!("typed {:?}: handler received {:?}, expected name {:?} and arguments {:?}", line, rig.proc.log, list[0], want_args));
             }
         }
     });
